@@ -27,11 +27,27 @@ Proof. exact counter_is_sum. Qed.
 Print Assumptions counter_invariant.
 
 (* computeGroupTriggerState lists every connection exactly once and nothing else. *)
-Theorem report_is_state :
+Theorem compute_state_lists_connections :
   forall k n es, 0 <= n ->
     let b := run_edits k (new_broker n) es in
     NoDup (report_pairs b) /\ forall s r, In (s, r) (report_pairs b) <-> connected b s r = true.
 Proof. exact report_lists_state. Qed.
+Print Assumptions compute_state_lists_connections.
+
+(* What a CLIENT is told: after EVERY request e of any history (requests with arbitrary, also partly invalid,
+   indices, interleaved with cycles), the RPC layer's last GROUPTRIGGER update v names channels only and is,
+   as a set, the set-theoretic result of all requests so far -- which by connections_are_set_semantics and
+   secondaries_are_union is the set Distribute uses.  (The set changes only at requests, so between requests
+   the client's copy stays equal to it.) *)
+Theorem report_is_state :
+  forall cf pre e,
+    0 <= cf_n cf -> 0 <= cf_nsamp cf -> inputs_ok cf None 0 (pre ++ [OEdit e]) ->
+    exists obs v cnt coup,
+      run cf (pre ++ [OEdit e]) = obs ++ [ORep v cnt coup] /\ length obs = length pre /\
+      let R := rel_of_edits (cf_kind cf) (cf_n cf) (edits_of (pre ++ [OEdit e])) in
+      (forall s r, In (s, r) v -> 0 <= s < cf_n cf /\ 0 <= r < cf_n cf) /\
+      (forall s r, 0 <= s < cf_n cf -> 0 <= r < cf_n cf -> (In (s, r) v <-> R s r = true)).
+Proof. exact every_request. Qed.
 Print Assumptions report_is_state.
 
 (* In EVERY cycle (after any history pre of requests and cycles), for EVERY receiver r: the multiset of its
@@ -88,8 +104,8 @@ Print Assumptions model_passes_checker.
 (* What the checker's acceptance means, independent of any model: after a request the reported pairs
    name channels only and are, as a set, exactly the updated connection set ... *)
 Theorem checker_sound_report :
-  forall cf st e rep cnt st',
-    check_step cf st (OEdit e) (ORep rep cnt) = Some st' ->
+  forall cf st e rep cnt coup st',
+    check_step cf st (OEdit e) (ORep rep cnt coup) = Some st' ->
     c_R st' = rel_edit (cf_kind cf) (cf_n cf) (c_R st) e /\
     (forall s r, In (s, r) rep -> 0 <= s < cf_n cf /\ 0 <= r < cf_n cf) /\
     (forall s r, 0 <= s < cf_n cf -> 0 <= r < cf_n cf -> (In (s, r) rep <-> c_R st' s r = true)).
@@ -131,10 +147,10 @@ Print Assumptions premises_are_satisfiable.
    dies, and the checker rejects that history; the repaired code ignores the request. *)
 Theorem connections_are_set_semantics_refuted_pre_fix :
   inputs_ok w_cf None 0 w_ops /\
-  run_with add_connection_old keeps_fixed w_cf (init_state 3) w_ops = [ORep [(7, 1)] 1; OCrash] /\
+  run_with add_connection_old keeps_fixed true w_cf (init_state 3) w_ops = [ORep [(7, 1)] 1 0; OCrash] /\
   rel_of_edits Generic 3 (edits_of w_ops) 7 1 = false /\
-  C09_check w_cf (combine w_ops (run_with add_connection_old keeps_fixed w_cf (init_state 3) w_ops)) = false /\
-  run w_cf w_ops = [ORep [] 0; OSec [[]; []; []]].
+  C09_check w_cf (combine w_ops (run_with add_connection_old keeps_fixed true w_cf (init_state 3) w_ops)) = false /\
+  run w_cf w_ops = [ORep [] 0 0; OSec [[]; []; []]].
 Proof. exact out_of_range_source_pre_fix. Qed.
 Print Assumptions connections_are_set_semantics_refuted_pre_fix.
 
@@ -143,9 +159,25 @@ Print Assumptions connections_are_set_semantics_refuted_pre_fix.
    the receiver for samples it no longer has and the cycle dies.  With equal retention it does not. *)
 Theorem secondary_excerpt_refuted_pre_fix :
   inputs_ok v_cf None 0 v_ops /\
-  nth 2 (run_with add_connection (fun _ _ => [50; 10]) v_cf (init_state 2) v_ops) (ORep [] 0) = OCrash /\
-  C09_check v_cf (combine v_ops (run_with add_connection (fun _ _ => [50; 10]) v_cf (init_state 2) v_ops)) = false /\
+  nth 2 (run_with add_connection (fun _ _ => [50; 10]) true v_cf (init_state 2) v_ops) (ORep [] 0 0) = OCrash /\
+  C09_check v_cf (combine v_ops (run_with add_connection (fun _ _ => [50; 10]) true v_cf (init_state 2) v_ops)) = false /\
   map (fun o => match o with OSec r => map (map r_frame) r | _ => [] end) (run v_cf v_ops)
   = [[]; [[]; [15]]; [[]; [26]]].
 Proof. exact unequal_history_pre_fix. Qed.
 Print Assumptions secondary_excerpt_refuted_pre_fix.
+
+(* Before the fix of CoupleErrToFB / CoupleFBToErr (TRIGCOUPLING was sent, GROUPTRIGGER was not): on a Lancero
+   source, after "couple err->fb" the client's connection state is still empty although 0 -> 1 is connected and
+   the next cycle gives channel 1 a secondary from channel 0; the checker rejects; the repaired layer reports (0,1). *)
+Theorem report_is_state_refuted_pre_fix :
+  inputs_ok u_cf None 0 u_ops /\
+  map (fun o => match o with ORep v _ _ => (v, []) | OSec r => ([], map (map r_frame) r) | OCrash => ([], []) end)
+      (run_with add_connection keeps_fixed false u_cf (init_state 2) u_ops)
+    = [([], []); ([], [[]; [3]])] /\
+  rel_of_edits Lancero 2 (edits_of u_ops) 0 1 = true /\
+  C09_check u_cf (combine u_ops (run_with add_connection keeps_fixed false u_cf (init_state 2) u_ops)) = false /\
+  map (fun o => match o with ORep v _ _ => (v, []) | OSec r => ([], map (map r_frame) r) | OCrash => ([], []) end)
+      (run u_cf u_ops)
+    = [([(0, 1)], []); ([], [[]; [3]])].
+Proof. exact stale_view_pre_fix. Qed.
+Print Assumptions report_is_state_refuted_pre_fix.
